@@ -406,7 +406,8 @@ def k3_invalid_case(d: int, ph: int, pos: int, sym: bool) -> bool:
     text = case_text(defect, phase, pos)
     if ob.case().get('oracle_bug'):
         text = case_text(('valid', [BASE['act'][0]], (), None), phase, pos)
-    r = run_cli(text, sym)
+    with ob.untraced():   # every selector is concrete by now
+        r = run_cli(text, sym)
     no_effects = (r['exc'] is None and r['process_starts'] == 0 and r['sandboxes'] == 0 and not r['home_changed'])
     if sym:
         # `exactly symbol FILE` reports without executing anything (whatever it reports)
@@ -524,7 +525,8 @@ def k4_suite_cases(sd: int, lay: int) -> bool:
         expected_invalid = SUITE_LAYOUTS[lay]
     else:
         expected_invalid = layout
-    r = run_suite(suite_files(defect, layout), 'the.suite')
+    with ob.untraced():   # every selector is concrete by now
+        r = run_suite(suite_files(defect, layout), 'the.suite')
     if r['exc'] is not None:
         return ob.post(False)
     ok = True
@@ -569,7 +571,9 @@ def obligations(tier: str) -> List[Ob]:
                             'plain run and `symbol` command' % ([d[0] for d in DEFECTS[lo:hi]], list(PHASES)),
                       timeout=2400, real=REAL_K3,
                       stubs=('subprocess module at process_executor / preprocessor: recording stub that starts nothing',
-                             'counting sandbox resolver (MainProgram constructor argument)', 'in-memory stdout/stderr'),
+                             'counting sandbox resolver (MainProgram constructor argument)', 'in-memory stdout/stderr',
+                             'CrossHair tracing is suspended while the program runs on the concrete test case (every selector has '
+                             'been made concrete before): the solver enumerates the selector space'),
                       entry='MainProgram.execute([FILE]) / MainProgram.execute(["symbol", FILE])',
                       outside=('effects through channels other than processes, the sandbox and the home directory',)))
     obs.append(Ob(name='K3:cli:act-phase', fn='k3_invalid_case', case=dict(act=True, range=(0, len(ACT_DEFECTS))),
